@@ -54,9 +54,22 @@ POOL = [
     {"text": "29.02.", "ts": TS1, "kw": {}},
     {"text": "29.02.2019 9-5", "ts": TS1, "kw": {}},
     {"text": "29.02.2020", "ts": TS2, "kw": {"latent_time": False}},
+    # the same tokens at two different character offsets (a value cached or hoisted per token would carry the wrong span)
+    {"text": "monday 5pm", "ts": TS1, "kw": {}},
+    {"text": "lunch monday 5pm", "ts": TS1, "kw": {}},
+    {"text": "on monday", "ts": TS1, "kw": {}},
+    {"text": "zz on monday", "ts": TS1, "kw": {}},
+    {"text": "may 8th", "ts": TS1, "kw": {}},
+    {"text": "xx may 8th", "ts": TS1, "kw": {}},
+    {"text": "eight tomorrow", "ts": TS1, "kw": {"latent_time": False}},
+    {"text": "zz eight tomorrow", "ts": TS1, "kw": {"latent_time": False}},
+    {"text": "noon", "ts": TS1, "kw": {}},
+    {"text": "at noon", "ts": TS1, "kw": {}},
 ]
+SHIFT_PAIRS = [(13, 14), (15, 16), (17, 18), (19, 20), (21, 22)]
 FAIL = 7
-OPENABLE = [0, 3, 5, 9, 10, 11]
+CALLABLE = list(range(13)) + [13, 14]  # history alphabet (the offset-shift pairs beyond #14 are exercised by the stream merges)
+OPENABLE = [0, 3, 5, 9, 10, 13]
 MERGE_POOL = [0, 1, 3, 4, 5, 8, 9, 10, 11, 12]
 SCHED_PAIRS_QUICK = [(9, 6, "one", "one"), (9, 9, "gen", "one")]
 SCHED_PAIRS_THOROUGH = SCHED_PAIRS_QUICK + [(9, 0, "one", "gen"), (9, 4, "one", "gen"), (0, 3, "one", "gen"), (4, 4, "gen", "gen"), (8, 0, "gen", "one")]
@@ -207,7 +220,7 @@ def _histories(depth):
             out.append(tuple(ops))
         if d == 0:
             return
-        for i in range(len(POOL)):
+        for i in CALLABLE:
             if i != FAIL:
                 rec(ops + [("CALL", i)], open_streams, d - 1)
         rec(ops + [("FAIL", FAIL)], open_streams, d - 1)
@@ -236,8 +249,8 @@ def plan(tier, seed):
     lens = [len(g) if isinstance(g, list) and (not g or g[0] != "exc") else 0 for g in REF["gen"]]
     merge_cap = 5 if tier == "quick" else 7
     merges = []
-    for a in MERGE_POOL:
-        for b in MERGE_POOL:
+    for a, b in [(x, y) for x in MERGE_POOL for y in MERGE_POOL] + SHIFT_PAIRS + [(y, x) for x, y in SHIFT_PAIRS]:
+        if True:
             la, lb = lens[a] + 1, lens[b] + 1  # +1: the step that raises StopIteration
             if la > merge_cap or lb > merge_cap:
                 continue
